@@ -36,6 +36,9 @@ pub struct Params {
     pub san_cases: Option<u64>,
     /// cap for the number of forced schedules per scenario
     pub max_schedules: Option<usize>,
+    /// build-variant runs of ./check: without the generators that are expensive and do not depend on the build
+    /// (giant vectors, scale, marathons)
+    pub lite: bool,
 }
 
 impl Params {
@@ -44,6 +47,9 @@ impl Params {
     where
         F: Fn(u64, &mut Outcome) + Sync,
     {
+        if self.lite && (gen.ends_with("-giant") || gen.ends_with("-scale") || gen.ends_with("-deep") || gen == "marathon") {
+            return Outcome::default();
+        }
         if self.san() && gen.contains("-exh") {
             // sanitizer / Miri mode: random generators only (the exhaustive sets run natively)
             return Outcome::default();
